@@ -13,7 +13,7 @@ while a:
 def sh(cmd, **kw): return subprocess.run(cmd, shell=True, capture_output=True, text=True, **kw)
 assert sh("git -C /repo diff --quiet").returncode == 0, "/repo is dirty"
 # seeded changes whose natural detector is another property's check (run in addition to their own)
-EXTRA = {("C19", "r2m2"): ["C20"], ("C20", "r3m2"): ["C19"]}
+EXTRA = {("C19", "r2m2"): ["C20"], ("C19", "r4m2"): ["C20"], ("C20", "r3m2"): ["C19"]}
 rows = []
 for meta_path in sorted(glob.glob(f"{ROOT}/seeded/*/*/meta.json")):
     d = os.path.dirname(meta_path)
